@@ -153,6 +153,10 @@ func runValidate(u *universe, out *hx.Out, prop, stream string, seed uint64, n i
 		}
 	case "hist":
 		for i := 0; i < n; i++ {
+			if i%3 == 2 {
+				partHistCase(s, hx.NewRand(seed, "parthist", uint64(i)), i)
+				continue
+			}
 			histCase(s, hx.NewRand(seed, "hist", uint64(i)), i)
 		}
 	default:
@@ -259,6 +263,47 @@ func advCase(s *session, r *hx.Rand, i int) {
 		}
 		s.step(d.build())
 	}
+	s.out.End()
+}
+
+// partHistCase: histories of partial-signature messages for EVERY role (incl. validator registration and
+// voluntary exit): the same signer again (a plain duplicate, another slot, another type of the role),
+// other signers in between.
+func partHistCase(s *session, r *hx.Rand, i int) {
+	u := s.u
+	sc := newScene(u, r)
+	// the two roles without consensus get every second case: nothing else exercises their histories
+	if i/3%2 == 0 {
+		sc.role = hx.Pick(r, spectypes.BNRoleValidatorRegistration, spectypes.BNRoleVoluntaryExit)
+	} else {
+		sc.role = allRoles[i/6%len(allRoles)]
+	}
+	s.begin("prop=%s parthist vid=%d role=%d", s.prop, sc.val.vid, uint64(sc.role))
+	s.fresh()
+	tys := partialTypesOf(sc.role)
+	base := sc.slot
+	var sent []*draft
+	for k := 0; k < 3+r.Intn(6); k++ {
+		var d *draft
+		if len(sent) > 0 && r.Chance(1, 3) {
+			d = cloneDraft(sent[r.Intn(len(sent))]) // a plain duplicate
+			s.out.Count("parthist_duplicate")
+		} else {
+			sc.slot = hx.Pick(r, base, base, base, base+1, base-1, base+32)
+			ty := tys[r.Intn(len(tys))]
+			if r.Chance(1, 10) {
+				ty = spectypes.PartialSigMsgType(r.Intn(7)) // a type of another role
+			}
+			pos := 1 + r.Intn(sc.n())
+			if r.Chance(2, 3) {
+				pos = 1 + r.Intn(2) // mostly the same two signers: repeats are the point
+			}
+			d = sc.partDraft(sc.partial(pos, ty, 1+r.Intn(2)), 1)
+		}
+		sent = append(sent, d)
+		s.step(d.build())
+	}
+	sc.slot = base
 	s.out.End()
 }
 
